@@ -143,6 +143,8 @@ def to_ir(fn_name, repo="/repo", _cache={}):
     if fd.args.vararg or fd.args.kwarg or fd.args.kwonlyargs:
         raise Unsupported(f"{fn_name}: unsupported parameter kinds")
     env = {}
+    scope = {"depth": 0}          # > 0 while the body of a module-level helper is being inlined
+    module_funcs = {n.name: n for n in tree.body if isinstance(n, ast.FunctionDef)}
 
     def const(v):
         if isinstance(v, bool) or not isinstance(v, (int, float)):
@@ -153,14 +155,17 @@ def to_ir(fn_name, repo="/repo", _cache={}):
         return ("ofidx", a) if k == "idx" else a
 
     def ex(n):
-        """-> (kind, ir) with kind in {idx, real, const, vec}"""
+        """-> (kind, ir) with kind in {idx, real, const, vec, data, prefix, tuple, percomp}"""
+        nonlocal env
         if isinstance(n, ast.Name):
             if n.id in env:
                 return env[n.id]
-            role = sig["args"].get(n.id) or sig.get("closure", {}).get(n.id)
+            role = None if scope["depth"] else (sig["args"].get(n.id) or sig.get("closure", {}).get(n.id))
             if role is None:
                 raise Unsupported(f"{fn_name}: free name {n.id}")
             k, v = role.split(":")
+            if k == "prefix":
+                return ("prefix", ("prefixvar", v))
             if k in ("idx", "int"):
                 return ("idx", ("var", v))
             if k in ("col", "real"):
@@ -171,12 +176,13 @@ def to_ir(fn_name, repo="/repo", _cache={}):
             return ("const", c)
         if isinstance(n, ast.Subscript):
             if isinstance(n.value, ast.Name):
-                role = sig["args"].get(n.value.id, "")
-                if role.startswith("prefix:"):
+                role = "" if scope["depth"] else sig["args"].get(n.value.id, "")
+                if role.startswith("prefix:") or env.get(n.value.id, ("",))[0] == "prefix":
+                    pv = ex(n.value)[1][1]
                     k, i = ex(n.slice)
                     if k != "idx":
                         raise Unsupported(f"{fn_name}: prefix indexed by non-index")
-                    return ("real", ("app", role.split(":")[1], i))
+                    return ("real", ("app", pv, i))
                 if role.startswith("data:") and isinstance(n.slice, ast.Slice):
                     return ("data", ("slice", n.value.id))
             if (isinstance(n.value, ast.Attribute) and n.value.attr == "shape"
@@ -192,7 +198,7 @@ def to_ir(fn_name, repo="/repo", _cache={}):
             if op is None:
                 raise Unsupported(f"{fn_name}: operator {type(n.op).__name__}")
             (ka, a), (kb, b) = ex(n.left), ex(n.right)
-            if "data" in (ka, kb) or "vec" in (ka, kb):
+            if {ka, kb} & {"data", "vec", "prefix", "tuple", "percomp"}:
                 raise Unsupported(f"{fn_name}: arithmetic on untranslated data")
             if op == "^":
                 if not (kb == "const" and b[1].denominator == 1 and 0 <= b[1] <= 8):
@@ -213,13 +219,21 @@ def to_ir(fn_name, repo="/repo", _cache={}):
             k, a = ex(n.operand)
             if k == "const":
                 return ("const", ("const", -a[1]))
-            if k in ("data", "vec"):
+            if k in ("data", "vec", "prefix", "tuple", "percomp"):
                 raise Unsupported("negation of data")
             return ("real", ("neg", lift(k, a)))
-        if isinstance(n, ast.Attribute) and isinstance(n.value, ast.Name) and n.value.id == "np" and n.attr == "pi":
+        if isinstance(n, ast.Attribute) and isinstance(n.value, ast.Name) and n.value.id in ("np", "math") and n.attr == "pi":
             return ("real", ("pi",))
+        if isinstance(n, ast.Tuple):
+            return ("tuple", [ex(e) for e in n.elts])
         if isinstance(n, ast.Call):
             f = n.func
+            if (isinstance(f, ast.Attribute) and isinstance(f.value, ast.Name) and f.value.id == "np" and f.attr == "sum"
+                    and len(n.args) == 1 and [k_.arg for k_ in n.keywords] == ["axis"]
+                    and isinstance(n.keywords[0].value, ast.Constant) and n.keywords[0].value.value == 1
+                    and sig.get("oracle_assign") and not scope["depth"] and _only_data(n.args[0], sig)):
+                # row sums of an expression of untranslated data: the vector whose total is the declared oracle value
+                return ("vec", ("var", list(sig["oracle_assign"].values())[0]))
             if n.keywords:
                 raise Unsupported(f"{fn_name}: keyword arguments in call")
             # x.reshape(-1, 1): element-wise identity under broadcasting
@@ -234,21 +248,41 @@ def to_ir(fn_name, repo="/repo", _cache={}):
                 for a_ in n.args:
                     ex(a_)
                 return ("real", ("var", sig["oracle_attr_calls"][f"{f.value.id}.{f.attr}"]))
+            if isinstance(f, ast.Attribute) and isinstance(f.value, ast.Name) and f.value.id == "math":
+                if f.attr in ("log", "sqrt", "fabs") and len(n.args) == 1:
+                    k, a = ex(n.args[0])
+                    if k not in ("idx", "real", "const"):
+                        raise Unsupported("function of data")
+                    return ("real", ({"log": "ln", "sqrt": "sqrt", "fabs": "abs"}[f.attr], lift(k, a)))
+                raise Unsupported(f"{fn_name}: math.{f.attr}")
             if isinstance(f, ast.Attribute) and isinstance(f.value, ast.Name) and f.value.id == "np":
                 if f.attr in NPFUN and len(n.args) == 1:
                     k, a = ex(n.args[0])
-                    if k in ("data", "vec"):
+                    if k not in ("idx", "real", "const"):
                         raise Unsupported("function of data")
                     return ("real", (NPFUN[f.attr], lift(k, a)))
+                if f.attr == "square" and len(n.args) == 1:
+                    k, a = ex(n.args[0])
+                    if k not in ("idx", "real", "const"):
+                        raise Unsupported("function of data")
+                    return ("real", ("pow", lift(k, a), 2))
+                if f.attr in ("maximum", "fmax") and len(n.args) == 2:
+                    (ka, a), (kb, b) = ex(n.args[0]), ex(n.args[1])
+                    if not {ka, kb} <= {"idx", "real", "const"}:
+                        raise Unsupported("function of data")
+                    return ("real", ("max", lift(ka, a), lift(kb, b)))
                 if f.attr == "zeros" and len(n.args) == 1:
                     return ("percomp", ("const", Fraction(0)))
                 if f.attr == "full" and len(n.args) == 2:
                     k, a = ex(n.args[1])
                     return ("percomp", lift(k, a))
-                if f.attr == "sum" and len(n.args) == 1 and isinstance(n.args[0], ast.Name):
-                    v = sig.get("oracle_assign", {}).get(n.args[0].id)
-                    if v is not None and env.get(n.args[0].id, (None,))[0] == "vec":
-                        return ("real", ("var", v))
+                if f.attr == "sum" and len(n.args) == 1 and sig.get("oracle_assign"):
+                    try:
+                        k, a = ex(n.args[0])
+                    except Unsupported:
+                        k, a = None, None
+                    if k == "vec":
+                        return ("real", a)
                 if f.attr == "isnan" and len(n.args) == 1:
                     raise Unsupported("isnan outside the declared guard")
                 raise Unsupported(f"{fn_name}: np.{f.attr}")
@@ -276,56 +310,87 @@ def to_ir(fn_name, repo="/repo", _cache={}):
                             sub[rv] = (k, a)
                     body = to_ir(f.id, repo)
                     return ("real", subst(body, sub))
+                if (f.id in module_funcs and f.id not in SIG and f.id != fd.name and scope["depth"] < 3):
+                    # a module-level helper of the same file: inlined (its parameters are bound to the translated arguments)
+                    callee = module_funcs[f.id]
+                    ca = callee.args
+                    if ca.vararg or ca.kwarg or ca.kwonlyargs or ca.defaults or len(ca.args) != len(n.args):
+                        raise Unsupported(f"{fn_name}: call shape of helper {f.id}")
+                    new_env = {a_.arg: ex(v_) for a_, v_ in zip(ca.args, n.args)}
+                    saved = env
+                    env = new_env
+                    scope["depth"] += 1
+                    try:
+                        r = run_body(callee.body, inlined=True)
+                    finally:
+                        scope["depth"] -= 1
+                        env = saved
+                    return r
             raise Unsupported(f"{fn_name}: call {ast.dump(f)[:80]}")
         raise Unsupported(f"{fn_name}: expression {type(n).__name__}")
 
-    ret = None
-    guard_seen = False
-    for st in fd.body:
-        if isinstance(st, ast.Expr) and isinstance(st.value, ast.Constant) and isinstance(st.value.value, str):
-            continue
-        if isinstance(st, ast.Assign) and len(st.targets) == 1 and isinstance(st.targets[0], ast.Name):
-            tgt = st.targets[0].id
-            if tgt in sig.get("oracle_assign", {}):
-                env[tgt] = ("vec", ("var", sig["oracle_assign"][tgt]))
+    guard = {"seen": False}
+
+    def run_body(stmts, inlined=False):
+        """Straight-line body -> value of its return statement.  inlined: the body of a helper (no guard, no oracle names)."""
+        for st in stmts:
+            if isinstance(st, ast.Expr) and isinstance(st.value, ast.Constant) and isinstance(st.value.value, str):
                 continue
-            try:
-                env[tgt] = ex(st.value)
-            except Unsupported:
-                # assignments that only manipulate untranslated data are allowed when declared
-                if _only_data(st.value, sig):
-                    env[tgt] = ("data", ("opaque", tgt))
+            if isinstance(st, ast.AnnAssign) and st.value is not None and isinstance(st.target, ast.Name):
+                st = ast.Assign(targets=[st.target], value=st.value)
+            if isinstance(st, ast.AugAssign) and isinstance(st.target, ast.Name):
+                st = ast.Assign(targets=[st.target],
+                                value=ast.BinOp(left=ast.Name(id=st.target.id, ctx=ast.Load()), op=st.op, right=st.value))
+            if isinstance(st, ast.Assign) and len(st.targets) == 1 and isinstance(st.targets[0], ast.Name):
+                tgt = st.targets[0].id
+                if not inlined and tgt in sig.get("oracle_assign", {}):
+                    env[tgt] = ("vec", ("var", sig["oracle_assign"][tgt]))
                     continue
-                raise
-            continue
-        if isinstance(st, ast.If) and sig.get("nan_guard") and not guard_seen:
-            t = st.test
-            ok = (isinstance(t, ast.Call) and isinstance(t.func, ast.Attribute) and t.func.attr == "isnan"
-                  and len(t.args) == 1 and isinstance(t.args[0], ast.Name) and t.args[0].id == sig["nan_guard"]
-                  and len(st.body) == 1 and isinstance(st.body[0], ast.Raise) and not st.orelse
-                  and isinstance(st.body[0].exc, ast.Call) and getattr(st.body[0].exc.func, "id", "") == "RuntimeError")
-            if not ok:
-                raise Unsupported(f"{fn_name}: if-statement other than the declared NaN guard")
-            guard_seen = True
-            continue
-        if isinstance(st, ast.Return):
-            if "tuple" in sig:
-                if not (isinstance(st.value, ast.Tuple) and len(st.value.elts) == 2):
-                    raise Unsupported(f"{fn_name}: expected a pair return")
-                (k1, a1), (k2, a2) = ex(st.value.elts[0]), ex(st.value.elts[1])
-                if k2 != "percomp":
-                    raise Unsupported(f"{fn_name}: second component is not np.zeros/np.full")
-                ret = ("pair", lift(k1, a1), a2)
-            else:
-                k, a = ex(st.value)
-                if k in ("data", "vec", "percomp"):
-                    raise Unsupported(f"{fn_name}: returns untranslated data")
-                ret = lift(k, a)
-            break
-        raise Unsupported(f"{fn_name}: statement {type(st).__name__}")
-    if ret is None:
+                try:
+                    env[tgt] = ex(st.value)
+                except Unsupported:
+                    # assignments that only manipulate untranslated data are allowed when declared
+                    if not inlined and _only_data(st.value, sig):
+                        env[tgt] = ("data", ("opaque", tgt))
+                        continue
+                    raise
+                continue
+            if (isinstance(st, ast.Assign) and len(st.targets) == 1 and isinstance(st.targets[0], ast.Tuple)
+                    and all(isinstance(t_, ast.Name) for t_ in st.targets[0].elts)):
+                k, vals = ex(st.value)
+                if k != "tuple" or len(vals) != len(st.targets[0].elts):
+                    raise Unsupported(f"{fn_name}: tuple assignment from a non-tuple")
+                for t_, v_ in zip(st.targets[0].elts, vals):
+                    env[t_.id] = v_
+                continue
+            if isinstance(st, ast.If) and not inlined and sig.get("nan_guard") and not guard["seen"]:
+                t = st.test
+                ok = (isinstance(t, ast.Call) and isinstance(t.func, ast.Attribute) and t.func.attr == "isnan"
+                      and len(t.args) == 1 and isinstance(t.args[0], ast.Name) and t.args[0].id == sig["nan_guard"]
+                      and len(st.body) == 1 and isinstance(st.body[0], ast.Raise) and not st.orelse
+                      and isinstance(st.body[0].exc, ast.Call) and getattr(st.body[0].exc.func, "id", "") == "RuntimeError")
+                if not ok:
+                    raise Unsupported(f"{fn_name}: if-statement other than the declared NaN guard")
+                guard["seen"] = True
+                continue
+            if isinstance(st, ast.Return) and st.value is not None:
+                return ex(st.value)
+            raise Unsupported(f"{fn_name}: statement {type(st).__name__}")
         raise Unsupported(f"{fn_name}: no return")
-    if sig.get("nan_guard") and not guard_seen:
+
+    rk, rv = run_body(fd.body)
+    if "tuple" in sig:
+        if not (rk == "tuple" and len(rv) == 2):
+            raise Unsupported(f"{fn_name}: expected a pair return")
+        (k1, a1), (k2, a2) = rv
+        if k2 != "percomp" or k1 not in ("idx", "real", "const"):
+            raise Unsupported(f"{fn_name}: second component is not np.zeros/np.full")
+        ret = ("pair", lift(k1, a1), a2)
+    else:
+        if rk not in ("idx", "real", "const"):
+            raise Unsupported(f"{fn_name}: returns untranslated data")
+        ret = lift(rk, rv)
+    if sig.get("nan_guard") and not guard["seen"]:
         raise Unsupported(f"{fn_name}: the declared NaN guard is missing")
     _cache[ck] = ret
     return ret
